@@ -4,7 +4,7 @@ DS = "deterministic simulation with fault injection"
 
 ENGINES = [
     {"name": "exitsim", "path": "sim/exitsim.py",
-     "serves_properties": ["C18"],
+     "serves_properties": ["C18", "C19", "C20"],
      "kind_free_text": "one fresh interpreter per run: generated script with a terminator at a chosen statement "
                        "position (crash point), real atexit/sys.exit/excepthook machinery, side-channel trace dump, "
                        "scratch working directory with optional stale artefacts; judged from the real exit status"},
@@ -39,6 +39,17 @@ _P = "seeded search over lying-prover fault schedules (deterministic simulation,
 _X = "seeded search over crash points x termination modes x configurations, one fresh interpreter per run (deterministic simulation, crash injection)"
 
 CHECK_META = {
+    "C19": {"engine": "exitsim", "design_ref": "3/C19", "technique": _X + "; thorough tier sweeps the whole finite configuration space",
+            "text": "configuration x import-order history x import-failure faults, one fresh interpreter each, plus a "
+                    "short traced program; quick samples 320 of the 976 configurations, thorough runs all of them",
+            "note": "libsnark rows use a fake libsnark module (selection only), qaptools rows fake executables, "
+                    "zkinterface rows the flatbuffers stub"},
+    "C20": {"engine": "exitsim", "design_ref": "3/C20", "technique": _X + "; plain-integer reference as oracle",
+            "text": "how the backend got selected (env / pre-import / auto-detect / pre-import overriding env) x field "
+                    "x seeded inputs, one interpreter each; parameter set in use vs table entry of the selected backend; "
+                    "traced permutation/sponge/subset-sum vs plain-integer reference (sampled by-product)",
+            "note": "reference Poseidon is the checker's reading of the round structure; constants are read from the "
+                    "repository's table, so a wrong table entry is only caught through the two published vectors"},
     "C18": {"engine": "exitsim", "design_ref": "3/C18", "technique": _X,
             "text": "crash point x termination mode x backend x autoprove x stale-artefact histories, each in a fresh "
                     "interpreter; expected outcome is a function of the real exit status; sampling of a small space "
